@@ -422,13 +422,13 @@ class Decay(BaseDecay):  # add useful methods to BaseDecay
         ja = self.core.J
         jb = self.outs[0].J
         jc = self.outs[1].J
-        n = (2 * jb + 1) * (2 * jc + 1)
+        n = int((2 * jb + 1) * (2 * jc + 1))
         ret = np.zeros(shape=(n, m))
         for i, ls_i in enumerate(ls):
             l, s = ls_i
             j = 0
-            for lambda_b in range(-jb, jb + 1):
-                for lambda_c in range(-jc, jc + 1):
+            for lambda_b in _spin_range(-jb, jb):
+                for lambda_c in _spin_range(-jc, jc):
                     ret[j][i] = (
                         np.sqrt((2 * l + 1) / (2 * ja + 1))
                         * cg_coef(
